@@ -686,6 +686,10 @@ var simKernels = []simKernel{
 	{Name: "Lag",
 		Params: func(r *Rng) []float64 { return []float64{[]float64{0, 1, 1, 0.5, 1.75}[r.Intn(5)]} },
 		States: func(r *Rng, p []float64) []float64 { return []float64{r.Uniform(0, 20)} }},
+	// a pair of models one of whose names contains the other's ("all command-line output selections": a selection naming
+	// one must not select the other). They use pow, so C07 compares the SIM family at 1e-9 relative.
+	{Name: "DynamicSednetGully", Params: func(r *Rng) []float64 { return modelGens["DynamicSednetGully"].Params(r) }},
+	{Name: "DynamicSednetGullyAlt", Params: func(r *Rng) []float64 { return modelGens["DynamicSednetGullyAlt"].Params(r) }},
 }
 
 func simKernelNames() []string {
@@ -727,6 +731,32 @@ func drawSimGraph(r *Rng, tier string, pool []simKernel) *SimGraph {
 		j := r.Intn(i + 1)
 		perm[i], perm[j] = perm[j], perm[i]
 	}
+	// sometimes: both models of a name-containing pair, and a selection flag naming only the longer name
+	pairCase := -1
+	if r.Chance(0.12) {
+		a, b := -1, -1
+		for i, k := range pool {
+			if k.Name == "DynamicSednetGully" {
+				a = i
+			}
+			if k.Name == "DynamicSednetGullyAlt" {
+				b = i
+			}
+		}
+		if a >= 0 && b >= 0 {
+			rest := []int{}
+			for _, x := range perm {
+				if x != a && x != b {
+					rest = append(rest, x)
+				}
+			}
+			perm = append([]int{a, b}, rest...)
+			if M < 2 {
+				M = 2
+			}
+			pairCase = 1 // index of the longer-named model in g.Models
+		}
+	}
 	nodesLeft := 30
 	anyInputs := false
 	for mi := 0; mi < M; mi++ {
@@ -766,6 +796,9 @@ func drawSimGraph(r *Rng, tier string, pool []simKernel) *SimGraph {
 					in[j] = Series(r, g.T, r.LogUniform(1e-2, 100))
 					if r.Chance(0.1) {
 						in[j] = make([]float64, g.T)
+					}
+					if g.T > 0 && r.Chance(0.03) {
+						in[j][r.Intn(g.T)] = math.NaN() // a gap in a stored record: NaN must propagate through the links like any value
 					}
 				}
 				m.In = append(m.In, in)
@@ -853,6 +886,12 @@ func drawSimGraph(r *Rng, tier string, pool []simKernel) *SimGraph {
 				g.Sel[k] = append(g.Sel[k], len(g.Models)) // a name that is not a model of the file
 			}
 		}
+	}
+	if pairCase >= 0 {
+		for k := range g.Sel {
+			g.Sel[k] = []int{}
+		}
+		g.Sel[r.Intn(4)] = []int{pairCase}
 	}
 	return g
 }
